@@ -1,0 +1,114 @@
+//go:build verif
+
+package localfs
+
+// Contracts for the rooted local filesystem. Property C13: every path handed to the Go os package
+// is confined to the filesystem's base. The Go functions carry the *requirement*; it can only be
+// established through resolvePath's postcondition. curBase() is an arbitrary constant: each
+// method is verified for every fs under the hypothesis curBase() == fs.base.
+
+//@ external os.Create
+//@ requires[C13.confined] confined(curBase(), name)
+//@ external os.Mkdir
+//@ requires[C13.confined] confined(curBase(), name)
+//@ external os.MkdirAll
+//@ requires[C13.confined] confined(curBase(), path)
+//@ external os.MkdirTemp
+//@ requires[C13.confined] confined(curBase(), dir)
+//@ external os.Open
+//@ requires[C13.confined] confined(curBase(), name)
+//@ external os.OpenFile
+//@ requires[C13.confined] confined(curBase(), name)
+//@ external os.Remove
+//@ requires[C13.confined] confined(curBase(), name)
+//@ external os.RemoveAll
+//@ requires[C13.confined] confined(curBase(), path)
+//@ external os.Rename
+//@ requires[C13.confined.old] confined(curBase(), oldpath)
+//@ requires[C13.confined.new] confined(curBase(), newpath)
+//@ external os.Stat
+//@ requires[C13.confined] confined(curBase(), name)
+//@ external os.Symlink
+//@ requires[C13.confined.old] confined(curBase(), oldname)
+//@ requires[C13.confined.new] confined(curBase(), newname)
+//@ external os.WriteFile
+//@ requires[C13.confined] confined(curBase(), name)
+//@ external os.ReadDir
+//@ requires[C13.confined] confined(curBase(), name)
+//@ external path/filepath.WalkDir
+//@ requires[C13.confined] confined(curBase(), root)
+//@ external os.(*File).Close
+
+//@ spec lfsInv(fs) = fs != nil && (fs.base == "" || isclean(fs.base)) && curBase() == fs.base
+
+//@ func (*Filesystem).resolvePath
+//@ props C13
+//@ requires fs != nil && (fs.base == "" || isclean(fs.base))
+//@ modifies nothing
+//@ ensures[C13.lfs.resolve] err == nil ==> confined(fs.base, result)
+
+//@ func New
+//@ props C13
+//@ ensures[C13.lfs.new] err == nil ==> result != nil && (result.base == "" || isclean(result.base))
+
+//@ func (*Filesystem).Create
+//@ props C13
+//@ strictpkgs os path/filepath
+//@ requires lfsInv(fs)
+//@ func (*Filesystem).Mkdir
+//@ props C13
+//@ strictpkgs os path/filepath
+//@ requires lfsInv(fs)
+//@ func (*Filesystem).MkdirAll
+//@ props C13
+//@ strictpkgs os path/filepath
+//@ requires lfsInv(fs)
+//@ func (*Filesystem).MkdirTemp
+//@ props C13
+//@ strictpkgs os path/filepath
+//@ requires lfsInv(fs)
+//@ func (*Filesystem).Open
+//@ props C13
+//@ strictpkgs os path/filepath
+//@ requires lfsInv(fs)
+//@ func (*Filesystem).OpenFile
+//@ props C13
+//@ strictpkgs os path/filepath
+//@ requires lfsInv(fs)
+//@ func (*Filesystem).ReadFile
+//@ props C13
+//@ strictpkgs os path/filepath
+//@ requires lfsInv(fs)
+//@ func (*Filesystem).Remove
+//@ props C13
+//@ strictpkgs os path/filepath
+//@ requires lfsInv(fs)
+//@ func (*Filesystem).RemoveAll
+//@ props C13
+//@ strictpkgs os path/filepath
+//@ requires lfsInv(fs)
+//@ func (*Filesystem).Rename
+//@ props C13
+//@ strictpkgs os path/filepath
+//@ requires lfsInv(fs)
+//@ func (*Filesystem).Stat
+//@ props C13
+//@ strictpkgs os path/filepath
+//@ requires lfsInv(fs)
+//@ func (*Filesystem).Symlink
+//@ props C13
+//@ strictpkgs os path/filepath
+//@ requires lfsInv(fs)
+//@ func (*Filesystem).WriteFile
+//@ props C13
+//@ strictpkgs os path/filepath
+//@ requires lfsInv(fs)
+//@ func (*Filesystem).ReadDir
+//@ props C13
+//@ strictpkgs os path/filepath
+//@ requires lfsInv(fs)
+//@ invariant 1: true
+//@ func (*Filesystem).WalkDir
+//@ props C13
+//@ strictpkgs os path/filepath
+//@ requires lfsInv(fs)
